@@ -300,7 +300,9 @@ func (p *poller) readWriteLoop() {
 										_ = c.closeWithError(err)
 										break
 									}
-									if n < bufLen {
+									// a short read means "drained" for a stream only;
+									// more datagrams may be waiting behind this one.
+									if n < bufLen && !c.IsUDP() {
 										break
 									}
 								}
